@@ -2,7 +2,8 @@
    Only statements closed by [exact], their assumption audits, and non-vacuity examples. *)
 From Model Require Import Engine.
 From Spec Require Import Sem FindSpec.
-From Proofs Require Import RefineBase RefineExec Refine Attempt FindCorrect SemSound Window UnrollSem ResolveOk.
+From Proofs Require Import RefineBase RefineExec Refine Attempt FindCorrect SemSound Window UnrollSem ResolveOk ParseListsOk FrontTotal.
+From Model Require Parser.
 
 (* The central refinement: whenever the specification derives the ordered outcome list l for the
    resolved pattern r from state s, the VM running r's code (placed anywhere in any program that
@@ -73,6 +74,17 @@ Theorem C01_generated_patterns_well_formed :
   Forall (fun x => match x with Some r => loop_ok r | None => True end) xs.
 Proof. intros cs xs Hl H. exact (ResolveOk.resolve_program_ok_lemma cs init_gstate xs Hl ResolveOk.init_gs_ok H). Qed.
 Print Assumptions C01_generated_patterns_well_formed.
+
+(* ... and the parser (regex sub-parser included) builds only such trees: for EVERY source text, every
+   pattern the generator resolves from what the parser returned is well formed. *)
+Theorem C01_well_formed_from_any_source :
+  forall src cs xs, Parser.parse_source src = Parser.FOk cs -> resolve_program cs init_gstate = GOk xs ->
+  Forall (fun x => match x with Some r => loop_ok r | None => True end) xs.
+Proof.
+  intros src cs xs Hp Hr. apply (ResolveOk.resolve_program_ok_lemma cs init_gstate xs); [|exact ResolveOk.init_gs_ok|exact Hr].
+  destruct (FrontTotal.no_partial_tree_lemma src cs Hp) as (ts & _ & Hts). exact (ParseListsOk.parse_lists_ok_lemma ts cs Hts).
+Qed.
+Print Assumptions C01_well_formed_from_any_source.
 
 (* non-vacuity: a loop inside an alternation inside a recursive subroutine, on "aabbd":
    {'a' maybe s 'b'} = s 'd'  has the single outcome 5, and the hypotheses of C01_attempt hold *)
